@@ -201,6 +201,7 @@ fn run_case(case: &Case) -> Outcome {
             }
         }
         Observed::OpenFailed(e) => out.set_fail(format!("C38|{}|threads{}|open_failed", model, if threads == 1 { "1" } else { "n" }), format!("reopening after {} commits fails: {}", live.commits, e.chars().take(300).collect::<String>())),
+        Observed::Died(e) if e.starts_with("TIMEOUT") => out.add_class("observer_timed_out"),
         Observed::Died(e) => out.set_fail(format!("C38|{}|threads{}|reopen_died", model, if threads == 1 { "1" } else { "n" }), format!("the process reopening the database died: {}", e)),
     }
     out.add_class(format!("threads:{}", threads));
@@ -272,6 +273,9 @@ pub fn main(tier: Tier, replay: Option<String>) -> i32 {
                     }
                 }
                 ctx.count_eval(1);
+                if out.classes.iter().any(|c| c == "observer_timed_out") {
+                    ctx.inconclusive("a recovery observer hit the 120 s watchdog (hang or overloaded machine): no verdict for that case");
+                }
                 for c in &out.classes {
                     ctx.class(c, 1);
                 }
